@@ -52,6 +52,55 @@ pub struct TreeSpec {
     pub nodes: Vec<Node>,
     /// (path, mode) applied after everything exists, in this order
     pub chmods: Vec<(String, u32)>,
+    /// every RAW_SENTINEL character in a path or link target stands for this single byte on
+    /// disk: names that are not valid UTF-8 (the specification itself stays valid JSON)
+    #[serde(default)]
+    pub raw_byte: Option<u8>,
+}
+
+/// Private-use character standing for `TreeSpec::raw_byte` in names.
+pub const RAW_SENTINEL: char = '\u{f8ff}';
+
+/// The bytes a specified path has on disk.
+pub fn disk_bytes(raw: Option<u8>, s: &str) -> Vec<u8> {
+    let Some(b) = raw else {
+        return s.as_bytes().to_vec();
+    };
+    let mut out = Vec::with_capacity(s.len());
+    for c in s.chars() {
+        if c == RAW_SENTINEL {
+            out.push(b);
+        } else {
+            let mut buf = [0u8; 4];
+            out.extend_from_slice(c.encode_utf8(&mut buf).as_bytes());
+        }
+    }
+    out
+}
+
+/// Undo `to_string_lossy` on a printed path of a tree whose only invalid byte is `raw`
+/// (each such byte is printed as one U+FFFD, and U+FFFD occurs in no generated name).
+pub fn unlossy(raw: Option<u8>, printed: &[u8]) -> Vec<u8> {
+    let Some(b) = raw else {
+        return printed.to_vec();
+    };
+    let mut out = Vec::with_capacity(printed.len());
+    let mut i = 0;
+    while i < printed.len() {
+        if printed[i..].starts_with(&[0xef, 0xbf, 0xbd]) {
+            out.push(b);
+            i += 3;
+        } else {
+            out.push(printed[i]);
+            i += 1;
+        }
+    }
+    out
+}
+
+fn disk_path(root: &Path, raw: Option<u8>, rel: &str) -> PathBuf {
+    use std::os::unix::ffi::OsStringExt;
+    root.join(std::ffi::OsString::from_vec(disk_bytes(raw, rel)))
 }
 
 impl TreeSpec {
@@ -63,6 +112,7 @@ impl TreeSpec {
         TreeSpec {
             nodes: self.nodes.iter().filter(|n| keep(n.path())).cloned().collect(),
             chmods: self.chmods.iter().filter(|(q, _)| keep(q)).cloned().collect(),
+            raw_byte: self.raw_byte,
         }
     }
 }
@@ -90,7 +140,7 @@ pub fn set_times(path: &Path, atime_ns: Option<i64>, mtime_ns: Option<i64>) -> i
 /// Build `spec` under `root` (which must exist and be empty).
 pub fn build(root: &Path, spec: &TreeSpec) -> io::Result<()> {
     for n in &spec.nodes {
-        let p = root.join(n.path());
+        let p = disk_path(root, spec.raw_byte, n.path());
         match n {
             Node::Dir { .. } => fs::create_dir(&p)?,
             Node::File {
@@ -115,7 +165,10 @@ pub fn build(root: &Path, spec: &TreeSpec) -> io::Result<()> {
                     set_times(&p, *atime_ns, *mtime_ns)?;
                 }
             }
-            Node::Symlink { target, .. } => symlink(target, &p)?,
+            Node::Symlink { target, .. } => {
+                use std::os::unix::ffi::OsStringExt;
+                symlink(std::ffi::OsString::from_vec(disk_bytes(spec.raw_byte, target)), &p)?
+            }
             Node::Fifo { .. } => {
                 let c = CString::new(p.as_os_str().as_bytes()).unwrap();
                 if unsafe { libc::mkfifo(c.as_ptr(), 0o644) } != 0 {
@@ -125,7 +178,7 @@ pub fn build(root: &Path, spec: &TreeSpec) -> io::Result<()> {
         }
     }
     for (p, mode) in &spec.chmods {
-        fs::set_permissions(root.join(p), fs::Permissions::from_mode(*mode))?;
+        fs::set_permissions(disk_path(root, spec.raw_byte, p), fs::Permissions::from_mode(*mode))?;
     }
     Ok(())
 }
